@@ -35,6 +35,11 @@ func hC02Pipe() {
 	// the client also advertises what it accepts and sets a deadline, in its own protocol's headers
 	p.req = buildClientRequest(cfg, reqMsgs, p.body)
 	withExtras := verifChoose("extras", 2) == 1
+	if !withExtras {
+		// what the backend receives must be a valid request however it reads it: in large reads, or (here) in
+		// reads shorter than an envelope
+		p.backend.bufSize = 3
+	}
 	if withExtras {
 		switch cfg.client {
 		case cfGRPC, cfGRPCWeb:
